@@ -75,7 +75,7 @@ def run_workers(paths, seeds, stats):
     for seed in seeds:
         env = dict(os.environ)
         env["PYTHONHASHSEED"] = seed
-        env["PYTHONPATH"] = "/repo"
+        env["PYTHONPATH"] = os.environ.get("STATHAM_REPO", "/repo")
         proc = subprocess.run([sys.executable, WORKER], input=json.dumps(paths), capture_output=True, text=True, env=env, timeout=1800, check=False)
         if proc.returncode != 0:
             stats["worker-failed"] = stats.get("worker-failed", 0) + 1
